@@ -393,6 +393,68 @@ fn chain_programs() -> Vec<Vec<X>> {
     out
 }
 
+/// comma-separated sequences (paren-free call arguments, parenthesised arguments, list / tuple /
+/// map elements, multi-assignment values) continued over lines after a comma: every split of the
+/// items into lines, at every continuation indent, in several enclosing contexts
+fn comma_continuation_family(t: &mut Tally) {
+    let heads: [(&str, &str, &str); 8] = [
+        ("r = f ", "", "paren-free call"),
+        ("print f ", "", "paren-free call as argument"),
+        ("r = f(", ")", "call"),
+        ("r = [", "]", "list"),
+        ("r = (", ")", "tuple"),
+        ("a, b, c, d = ", "", "multi-assignment values"),
+        ("r = 0, ", "", "tuple without parentheses"),
+        ("r = obj.m ", "", "paren-free method call"),
+    ];
+    let items = ["1", "x", "g(2)", "'s'"];
+    let contexts: [(&str, &str); 3] = [("", ""), ("h = ||\n", "  "), ("if true\n", "  ")];
+    let prelude = "f = |a...| a\ng = |v| v\nx = 5\nobj = {m: |a...| a}\n";
+    for (open, close, kind) in heads {
+        for (ctx_head, ctx_indent) in contexts {
+            let canonical = format!("{prelude}{ctx_head}{ctx_indent}{open}{}{close}\n{}", items.join(", "), if ctx_head.starts_with("h =") { "h()\n" } else { "" });
+            let Ok(Ok(base_code)) = code_of(&canonical) else {
+                t.skipped_not_compiling += 1;
+                continue;
+            };
+            // every subset of the three commas gets a line break after it
+            for mask in 1u32..8 {
+                for extra_indent in [2usize, 4, 1] {
+                    for first_on_own_line in [false, true] {
+                        if first_on_own_line && close.is_empty() {
+                            continue; // only inside brackets
+                        }
+                        let cont = format!("{ctx_indent}{}", " ".repeat(extra_indent));
+                        let mut v = format!("{prelude}{ctx_head}{ctx_indent}{open}");
+                        if first_on_own_line {
+                            v.push_str(&format!("\n{cont}"));
+                        }
+                        for (i, it) in items.iter().enumerate() {
+                            v.push_str(it);
+                            if i + 1 < items.len() {
+                                if mask & (1 << i) != 0 {
+                                    v.push_str(&format!(",\n{cont}"));
+                                } else {
+                                    v.push_str(", ");
+                                }
+                            }
+                        }
+                        if first_on_own_line {
+                            v.push_str(&format!("\n{ctx_indent}"));
+                        }
+                        v.push_str(close);
+                        v.push('\n');
+                        if ctx_head.starts_with("h =") {
+                            v.push_str("h()\n");
+                        }
+                        check_variant(t, "comma-continuations", &format!("{kind}: breaks after commas {mask:03b}, continuation indent +{extra_indent}, first item on its own line: {first_on_own_line}"), &canonical, &base_code, &v);
+                    }
+                }
+            }
+        }
+    }
+}
+
 fn operator_cut_family(t: &mut Tally) {
     let contexts = ["", "f = ||\n  ", "if a\n  ", "for i in x\n  ", "while a\n  b = 1\n  ", "g = |n|\n  if n\n    ", "try\n  a\ncatch e\n  ", "match v\n  1 then\n    "];
     let cut_lines = [
@@ -453,7 +515,7 @@ pub fn run(args: &Args) -> i32 {
         return 0;
     }
     let mut report = Report::new(args, "exploration");
-    let every = tier.pick(23usize, 23usize);
+    let every = tier.pick(41usize, 23usize);
     let nshards = threads() * 8;
     let wall_cap = tier.pick(50.0, 600.0);
     let started = std::time::Instant::now();
@@ -492,6 +554,7 @@ pub fn run(args: &Args) -> i32 {
         }
         if shard == 0 {
             operator_cut_family(&mut t);
+            comma_continuation_family(&mut t);
         }
         if shard == 1 % nshards {
             for p in chain_programs() {
